@@ -41,7 +41,7 @@ fn observe_position(r: &Run, op: &Op, pre: &Snap, o: &mut PreObs) {
 
 pub fn pre_obs(r: &Run, op: &Op, pre: &Snap) -> PreObs {
     let mut o = PreObs::default();
-    if matches!(r.mon.prop, "C04" | "C05" | "C06" | "C07" | "C11") {
+    if matches!(r.mon.prop, "C04" | "C05" | "C06" | "C07" | "C11" | "C12") {
         observe_position(r, op, pre, &mut o);
         if let Op::Close { who, .. } = op {
             if let Some(p) = &pre.pos[&(r.vi, *who)] {
@@ -121,6 +121,13 @@ fn c12(r: &Run, rec: &StepRec) {
                 if let Some(f) = &rec.obs.fee {
                     prove_d("C12/close-pays-fee-pool-quoted-toll-on-open-notional", pool.eq(s(f.toll_fee)), what.clone());
                     prove_d("C12/close-pays-insurance-fund-quoted-spread-on-open-notional", ins.eq(s(f.spread_fee)), what.clone());
+                    // ... and it is the trader who is charged: the wallet receives the position's
+                    // equity less exactly these fees (both collateral kinds)
+                    if let (Some(p), Some(q)) = (&rec.obs.pos, rec.obs.out_spot) {
+                        let fund = crate::spec::funding_owed(p, &r.cum_ledger[r.vi], d);
+                        let eq = crate::spec::equity(p, crate::spec::pnl(p, q), fund);
+                        prove_d("C12/close-fees-are-charged-to-the-trader", delta(rec, rec.op.sender()).eq(eq.sub(s(f.toll_fee)).sub(s(f.spread_fee))), what.clone());
+                    }
                 } else {
                     prove_d("C12/close-fee-quote-available", Cond::False, what.clone());
                 }
@@ -155,7 +162,9 @@ fn c04(r: &Run, rec: &StepRec) {
             (Some(p), Some(q)) => (p, q),
             _ => return,
         };
-        let f = spec::funding_owed(p, &rec.pre.cum[r.vi], d);
+        // funding owed up to the last settlement (harness ledger; equal to the engine's current
+        // cumulative fraction unless something other than a settlement moved it)
+        let f = spec::funding_owed(p, &r.cum_ledger[r.vi], d);
         let eq = spec::equity(p, spec::pnl(p, q), f);
         // with a zero fluctuation limit ClosePosition always closes the whole position; under a
         // limit it may close a fraction, which realises only that fraction of the PnL
@@ -165,7 +174,7 @@ fn c04(r: &Run, rec: &StepRec) {
             if whole {
                 prove_d("C04/close-succeeds-only-without-bad-debt", spec::ge0(eq), what.clone());
             }
-            if whole && r.w.token.is_some() {
+            if whole {
                 let fees = match &rec.obs.fee {
                     Some(f) => s(f.toll_fee).add(s(f.spread_fee)),
                     None => c(0),
@@ -174,7 +183,7 @@ fn c04(r: &Run, rec: &StepRec) {
                 // funding owed measured from the harness's own ledger of when the position was last
                 // charged (a stale checkpoint must not make a settlement count twice or not at all)
                 if let Some(at) = r.charged_at.get(&(r.vi, *who)) {
-                    let f2 = si(&rec.pre.cum[r.vi]).sub(si(at)).mul(si(&p.size)).div_t(c(d));
+                    let f2 = si(&r.cum_ledger[r.vi]).sub(si(at)).mul(si(&p.size)).div_t(c(d));
                     let eq2 = spec::equity(p, spec::pnl(p, q), f2);
                     prove_d("C04/whole-close-charges-only-funding-accrued-since-last-charge", delta(rec, who).eq(eq2.sub(fees)), what.clone());
                 }
@@ -259,7 +268,7 @@ fn c05(r: &Run, rec: &StepRec) {
                     return;
                 }
             };
-            let f = spec::funding_owed(p0, &rec.pre.cum[r.vi], d);
+            let f = spec::funding_owed(p0, &r.cum_ledger[r.vi], d);
             prove_d("C05/withdraw-wallet-receives-exactly-the-amount", delta(rec, who).eq(s(*amount)), what.clone());
             prove_d("C05/withdraw-margin-falls-by-amount+funding", s(p0.margin).sub(s(p1.margin)).eq(s(*amount).add(f)), what.clone());
             match r.w.free_collateral(r.vi, who) {
@@ -307,7 +316,7 @@ fn liq_ratio(r: &Run, rec: &StepRec) -> Option<SInt> {
     if let Some(at) = r.charged_at.get(&(r.vi, subject(&rec.op))) {
         pl.last_updated_premium_fraction = *at;
     }
-    let i = spec::RatioIn { p: &pl, out_spot: os, out_twap: ot, cum: &rec.pre.cum[r.vi], spot_price: sp, oracle: rec.obs.oracle, d: r.w.d };
+    let i = spec::RatioIn { p: &pl, out_spot: os, out_twap: ot, cum: &r.cum_ledger[r.vi], spot_price: sp, oracle: rec.obs.oracle, d: r.w.d };
     Some(spec::ratio_for_liquidation(&i))
 }
 
